@@ -40,7 +40,7 @@ TOKEN = re.compile(r'''
   | (?P<pp>\#[^\n]*)
   | (?P<num>(?:\d+\.\d*|\.\d+|\d+)(?:[eE][+-]?\d+)?)
   | (?P<id>[A-Za-z_][A-Za-z_0-9]*)
-  | (?P<op>[-+*/(){}\[\];:,=&])
+  | (?P<op>[-+*/(){}\[\];:,=])
 ''', re.X | re.S)
 
 
@@ -49,7 +49,6 @@ def tokenize(src, fname='<src>'):
     pos = 0
     n = len(src)
     line = 1
-    depth_pp = 0
     while pos < n:
         m = TOKEN.match(src, pos)
         if not m:
@@ -92,7 +91,7 @@ class Parser(object):
 
     def expect(self, text):
         t = self.next()
-        if t[1] != text or t[0] == 'num':
+        if t[1] != text or t[0] not in ('op', 'id'):
             self.k -= 1
             self.err('expected %r' % text)
         return t
